@@ -79,7 +79,7 @@ theorem prV3Connack_W (c : C) (parsed) (cx : Cx c L pw) (h : EvAll (W B L pw) c.
     · rename_i p
       have cx' : Cx { c with s := { c.s with status := .connected } } L pw := ⟨cx.hL, cx.hpw⟩
       by_cases h1 : p.rc = some 0 <;> by_cases h2 : p.sp = true <;> simp [h1, h2, h, hP.rcv]
-      exact sendStored_all hP _ h (W_store cx')
+      exact resendStored_all hP _ h (W_store cx')
     · exact handleV3Error_all hP W_close c _ h
 
 
@@ -91,9 +91,9 @@ theorem prV5Connack_acc_W (c : C) (p : Pkt) (hn : c.s.status ≠ .connected) (hr
   have hf := propsFold_all (connackRecvProp_all hP)
   simp only [prV5Connack, hn, hr, if_false, if_true] at hL ⊢
   by_cases h2 : p.sp = true
-  · simp only [h2, if_true, push_s, sendStored_mps] at hL
+  · simp only [h2, if_true, push_s, resendStored_mps] at hL
     simp only [h2, if_true, push_ev, EvAll_append, EvAll_single, hP.rcv, and_true]
-    exact sendStored_all hP _ (hf _ _ h) (W_store ⟨hL, by simpa using hpw⟩)
+    exact resendStored_all hP _ (hf _ _ h) (W_store ⟨hL, by simpa using hpw⟩)
   · simp [h2, hP.rcv, hf, h]
 
 theorem prV5Connack_other_fr (c : C) (parsed)
